@@ -49,12 +49,20 @@ def kind_of(v):
     return "bundles"
 
 
+ADD_ONLY_NAMES = ("_u", "in", "a b")     # names only add() can give: leading underscore, keyword, not an identifier
+
+
 def histories(rnd, n, maxlen, kinds):
     ops = ("setattr", "add_named", "add_name_arg", "get", "bad_value", "banned", "delattr", "reuse_obj", "reuse_obj",
            "rename_by_hand")
+
+    def step():
+        op = rnd.choice(ops[:3] * 3 + ops[3:])
+        if op in ("add_named", "add_name_arg", "get") and rnd.random() < 0.25:
+            return (op, rnd.choice(ADD_ONLY_NAMES), rnd.choice(kinds))
+        return (op, rnd.choice(NAMES), rnd.choice(kinds))
     for _ in range(n):
-        yield tuple((rnd.choice(ops[:3] * 3 + ops[3:]), rnd.choice(NAMES), rnd.choice(kinds))
-                    for _ in range(rnd.randint(1, maxlen)))
+        yield tuple(step() for _ in range(rnd.randint(1, maxlen)))
 
 
 def small_histories(kinds):
@@ -64,6 +72,9 @@ def small_histories(kinds):
                 for op2 in ("setattr", "add_named", "add_name_arg"):
                     yield ((op1, "a", k1), (op2, "a", k2), ("get", "a", k1))
                     yield ((op1, "a", k1), (op1, "b", k2), (op2, "a", k2))
+                for nm in ADD_ONLY_NAMES:
+                    yield ((op1, "a", k1), ("add_named" if op1 == "setattr" else op1, nm, k2), ("get", nm, k2))
+                    yield (("add_named", nm, k1), ("add_name_arg", nm, k2), (op1, "a", k1))
             # an object held under two names, or re-named by hand, when one of its names is re-used for another kind
             yield (("setattr", "a", k1), ("reuse_obj", "b", k1), ("setattr", "a", k2), ("get", "b", k1))
             yield (("setattr", "a", k1), ("reuse_obj", "b", k1), ("setattr", "b", k2), ("get", "a", k1))
@@ -122,11 +133,19 @@ def check_history(case):
                     return ("rejects.non-attr", f"non-HDL value {bad!r} accepted by setattr at {where}")
             elif op == "banned":
                 for b in banned:
-                    try:
-                        setattr(m, b, mk_value(kind, ctx))
-                    except RuntimeError:
-                        continue
-                    return ("rejects.banned", f"reserved name {b} accepted at {where}")
+                    for how in ("setattr", "add(named)", "add(name=)"):
+                        v = mk_value(kind, ctx)
+                        try:
+                            if how == "setattr":
+                                setattr(m, b, v)
+                            elif how == "add(named)":
+                                v.name = b
+                                m.add(v)
+                            else:
+                                m.add(v, name=b)
+                        except RuntimeError:
+                            continue
+                        return ("rejects.banned", f"reserved name {b} accepted by {how} at {where}")
             elif op == "delattr":
                 try:
                     delattr(m, name)
@@ -167,7 +186,7 @@ def check_history(case):
             parent = v._parent_module if is_mod else v._parent_bundle
             if parent is not m:
                 return ("post.parent", f"{n} does not report the module as parent at {where}")
-        for n in NAMES:
+        for n in NAMES + ADD_ONLY_NAMES:
             if n not in spec and m.get(n) is not None:
                 return ("post.get", f"get({n}) returns an object for an absent name at {where}")
     return None
@@ -203,6 +222,36 @@ def check_misc(_):
             return ("class-style", f"class-style and procedural modules differ in `{kd}`: {list(a)} vs {list(b)}")
     if Cls.i.width != 2 or Cls.x.conns["p"] is not Cls.s:
         return ("class-style", "class-style module lost a width or a connection")
+    # values that already carry a name of their own (other than the class-body key): the KEY names them, exactly as the
+    # assignment `m.key = value` would
+    B = h.Bundle(name="CB")
+    B.x = h.Signal()
+
+    def values():
+        return {"i2": h.Input(name="other_in", width=3), "s2": h.Signal(name="s"), "p2": h.Port(name="i2"),
+                "x2": h.Instance(of=Leaf, name="was_x"), "arr": h.InstanceArray(Leaf, 2, name="was_arr"),
+                "bb": h.BundleInstance(of=B, name="was_bb"), "plain": h.Signal()}
+    Cls2 = h.module(type("Cls2", (), dict(values())))
+    P2 = h.Module(name="Cls2")
+    for k, v in values().items():
+        setattr(P2, k, v)
+    for kd in ("ports", "signals", "instances", "instarrays", "bundles", "namespace"):
+        a, b = getattr(Cls2, kd), getattr(P2, kd)
+        if list(a) != list(b) or [type(v) for v in a.values()] != [type(v) for v in b.values()] or \
+                [v.name for v in a.values()] != [v.name for v in b.values()]:
+            return ("class-style", f"class-style and procedural modules with pre-named values differ in `{kd}`: "
+                                   f"{[(k, v.name) for k, v in a.items()]} vs {[(k, v.name) for k, v in b.items()]}")
+    for k in values():
+        if Cls2.get(k) is None or getattr(Cls2, k) is not Cls2.get(k) or Cls2.get(k).name != k:
+            return ("class-style", f"class-body key `{k}` does not denote its value (named {getattr(Cls2.get(k), 'name', None)!r})")
+    BC = h.bundle(type("BC2", (), {"m1": h.Signal(name="zz", width=2), "m2": B(name="was")}))
+    BP = h.Bundle(name="BC2")
+    BP.m1 = h.Signal(name="zz", width=2)
+    BP.m2 = B(name="was")
+    for kd in ("signals", "bundles", "namespace"):
+        a, b = getattr(BC, kd), getattr(BP, kd)
+        if list(a) != list(b) or [v.name for v in a.values()] != [v.name for v in b.values()]:
+            return ("class-style", f"class-style and procedural bundles with pre-named values differ in `{kd}`: {list(a)} vs {list(b)}")
     h.elaborate(Cls)
     for f in (lambda: setattr(Cls, "late", h.Signal()), lambda: Cls.add(h.Signal(name="late2"))):
         try:
